@@ -40,6 +40,16 @@ Theorem exit_callback_fault_contained :
 Proof. exact exit_callback_contained_general. Qed.
 Print Assumptions exit_callback_fault_contained.
 
+(* The final, forced close of the client task (outside every per-client filter): whatever OSError-derived kind the socket
+   shutdown raises there (plain OSError such as ENOTCONN / EBADF, ConnectionError subclasses such as EPIPE, TimeoutError),
+   after the handler failed with any Exception-derived value, nothing leaves the client task and the connection is closed. *)
+Theorem final_close_fault_contained :
+  forall (f : flavour) (e1 : exc) (k : leaf),
+    exc_is_exception e1 = true -> isinst k C_OSError = true ->
+    o_raises (tcp_final_close_fault f e1 k) = None /\ o_closed (tcp_final_close_fault f e1 k) = true.
+Proof. exact final_close_contained_general. Qed.
+Print Assumptions final_close_fault_contained.
+
 (* The failing client's connection is closed on every path (even for kinds outside the property). *)
 Theorem failing_client_closed :
   forall (tls : flavour) (p : position) (e1 : exc) (e2 : option exc),
@@ -69,6 +79,9 @@ Print Assumptions udp_fresh_handler_after_failure.
 Example exception_kinds_exist :
   exc_is_exception (Group [KClientClosed; KGeneric; KClientClosed]) = true.
 Proof. reflexivity. Qed.
+Example oserror_kinds_exist :
+  isinst KOSError C_OSError = true /\ isinst KTimeout C_OSError = true /\ isinst KGeneric C_OSError = false.
+Proof. exact oserror_kinds_exist. Qed.
 Example fatal_kind_escapes :
   o_raises (tcp_client_task FPlain PHandleAfter (Naked KFatal) None) = Some (Naked KFatal).
 Proof. exact fatal_escapes_tcp. Qed.
